@@ -100,6 +100,9 @@ def run_for(prop: Optional[str], jobs: int = 16, strict: bool = True, corpora: b
         if outcome in ("not-applicable", "baseline-analysis-error"):
             summary["not_applicable"] += 1
             continue
+        if kind == "declined":
+            summary.setdefault("declined_out_of_reach", []).append(f"{mid}/{pr}:{outcome}")
+            continue
         if kind == "fault":
             summary["faults_applied"] += 1
             if outcome == "reported":
